@@ -657,6 +657,187 @@ def prepare_unmodelled(payload):
     return c
 
 
+# ---------------------------------------------------------------------------
+# FoldConditionalReturnExpressionsTrans: routines with RETURN (own statement type RStmt in the model)
+def export_r(node, names):
+    """PSyIR statement -> RStmt S-expression (`base` wraps a return-free MiniF statement)"""
+    from psyclone.psyir.nodes import CodeBlock, IfBlock, Return
+    if isinstance(node, Return):
+        return ["ret"]
+    if isinstance(node, IfBlock) and node.walk(Return):
+        els = export_r_seq(node.else_body.children, names) if node.else_body is not None else ["skip"]
+        return ["rite", minif.export_expr(node.condition, names), export_r_seq(node.if_body.children, names), els,
+                1 if node.else_body is not None else 0]
+    if node.walk(Return):
+        raise minif.Unsupported("RETURN inside " + type(node).__name__)
+    if isinstance(node, CodeBlock):
+        return None
+    e = minif.export_stmt(node, names)
+    return None if e is None else ["base", e]
+
+
+def export_r_seq(nodes, names):
+    out = [export_r(n, names) for n in nodes]
+    return ["rseqs"] + [x for x in out if x is not None]
+
+
+def flat_r(s):
+    if s is None or s[0] == "skip":
+        return []
+    if s[0] in ("rseqs", "rseq"):
+        out = []
+        for c in s[1:]:
+            out += flat_r(c)
+        return out
+    if s[0] == "rite":      # the has-else flag only matters to the model's decisions, not to the result
+        return [["rite", s[1], norm_r(s[2]), norm_r(s[3])]]
+    if s[0] == "base":      # a return-free IfBlock may be exported as MiniF `ite` or kept as `rite`
+        return [["rite", x[1], norm_r(["base", x[2]]), norm_r(["base", x[3]])] if x[0] == "ite" else ["base", x]
+                for x in flat(s[1])]
+    return [s]
+
+
+def norm_r(s):
+    return ["rseqs"] + flat_r(s)
+
+
+def fold_case(src):
+    """run the real transformation on the subroutine `work` of a generated file"""
+    from psyclone.psyir.backend.fortran import FortranWriter
+    from psyclone.psyir.frontend.fortran import FortranReader
+    from psyclone.psyir.nodes import Call, Routine
+    from psyclone.psyir.transformations import FoldConditionalReturnExpressionsTrans, TransformationError
+    psyir = FortranReader().psyir_from_source(src)
+    work = [r for r in psyir.walk(Routine) if r.name == "work"][0]
+    prog = [r for r in psyir.walk(Routine) if r.is_program][0]
+    names = minif.Names()
+    init = []
+    for c in prog.children:
+        if isinstance(c, Call):
+            break
+        e = minif.export_stmt(c, names)
+        if e is not None:
+            init.append(["base", e])
+    before = export_r_seq(work.children, names)
+    res = {"names": names, "line": sx(["fold", before[1:]]), "orig": ["rseqs"] + init + [before]}
+    try:
+        FoldConditionalReturnExpressionsTrans().apply(work)
+        res["accepted"] = True
+    except TransformationError as e:
+        res["accepted"], res["error"] = False, str(e.value)
+        return res
+    after = export_r_seq(work.children, names)
+    res["real_out"] = norm_r(after)
+    res["new"] = ["rseqs"] + init + [after]
+    res["new_src"] = FortranWriter()(psyir)
+    return res
+
+
+def fold_queries(names, scalars, arrays):
+    q = [(names.id(s),) for s in scalars]
+    for a in arrays:
+        q += [(names.id(a), i) for i in range(minif.A_LO, minif.A_HI + 1)]
+    return q
+
+
+def evaluate_fold(chk, n, stats):
+    """correspondence (foldApply) + property (execR, gfortran) for FoldConditionalReturnExpressionsTrans"""
+    cases = []
+    for _ in range(n):
+        src, scalars, arrays, body = G.gen_foldret(chk.rng)
+        try:
+            r = fold_case(src)
+        except minif.Unsupported as e:
+            stats["skipped"] += 1
+            continue
+        r.update({"src": src, "scalars": scalars, "arrays": arrays, "body": body})
+        cases.append(r)
+    if not cases:
+        return
+    model = common.driver("C05", [r["line"] for r in cases])
+    lines, owners = [], []
+    for r in cases:
+        if r["accepted"]:
+            q = [list(x) for x in fold_queries(r["names"], r["scalars"], r["arrays"])]
+            lines += [sx(["execr", r["orig"], q]), sx(["execr", r["new"], q])]
+            owners.append(r)
+    outs = common.driver("C05", lines) if lines else []
+    todo = []
+    for k, r in enumerate(owners):
+        r["o"] = [int(t) for t in outs[2 * k].strip("()").split()]
+        r["n"] = [int(t) for t in outs[2 * k + 1].strip("()").split()]
+    for r, mo in zip(cases, model):
+        m = parse_sx(mo) if mo.startswith("(") else mo
+        if not isinstance(m, list):
+            raise common.Infra(f"C05 driver answered {mo!r} to {r['line'][:200]}")
+        m_acc = m[0] == "ok"
+        agreed = (m_acc == r["accepted"]) and (not m_acc or norm_r(m[1]) == r["real_out"])
+        stats["kinds"]["foldret"] = stats["kinds"].get("foldret", 0) + 1
+        key = "foldret:" + ("accept" if r["accepted"] else "refuse")
+        stats["outcomes"][key] = stats["outcomes"].get(key, 0) + 1
+        case = {"kind": "foldret", "body": r["body"]}
+        chk.case(case, nontrivial=True, agreed=agreed)
+        pay = {"kind": "foldret", "src": r["src"], "target": [0], "options": None, "literal_negative_step": False}
+        if not agreed:
+            chk.correspondence_broken("foldret: result differs from foldApply", pay, mo[:600],
+                                      sx(r.get("real_out"))[:600] if r.get("real_out") else r.get("error"))
+        if not r["accepted"]:
+            continue
+        differs = r["o"] != r["n"]
+        if differs:
+            stats["model_level_differences"] += 1
+        if differs or chk.rng.random() < 0.08:
+            todo.append((r, pay, agreed))
+    from concurrent.futures import ThreadPoolExecutor
+
+    def gf(t):
+        r = t[0]
+        return minif.gfortran_run(r["src"]), minif.gfortran_run(r["new_src"])
+    with ThreadPoolExecutor(max_workers=6) as ex:
+        results = list(ex.map(gf, todo))
+    for (r, pay, agreed), ((s0, o0), (s1, o1)) in zip(todo, results):
+        stats["gfortran_runs"] += 1
+        if s0 != "ok":
+            if s0 == "compile-error":
+                raise common.Infra(f"gfortran rejects a generated program: {o0[-300:]}\n{r['src']}")
+            stats["gfortran_trap_skipped"] += 1
+            continue
+        if s1 != "ok":
+            g0, g1 = minif.parse_output(o0), None
+        else:
+            g0, g1 = minif.parse_output(o0), minif.parse_output(o1)
+            if g0 == r["o"] and g1 == r["n"]:
+                stats["oracle_agreements"] += 1
+            elif not minif.overflowed(r["o"]) and not minif.overflowed(r["n"]):
+                stats["oracle_disagreements"] += 1
+                stats.setdefault("oracle_disagreement_sample", pay)
+        if g1 is not None and g0 == g1:
+            continue
+        stats["failing"] += 1
+        if stats["failing"] <= 3:
+            pay = dict(pay, kind_of_failure="failing-input", transformed=r["new_src"], model_agreed=agreed,
+                       observed=("transformed program fails: " + s1 + " " + o1[-200:]) if g1 is None else
+                       [(k, a, b) for k, (a, b) in enumerate(zip(g0, g1)) if a != b][:6],
+                       expected="same printed values as the original")
+            chk.violation(pay)
+
+
+def replay_fold(payload):
+    r = fold_case(payload["src"])
+    if not r["accepted"]:
+        return False, "refused: " + r.get("error", "")[:200]
+    (s0, o0), (s1, o1) = minif.gfortran_run(payload["src"]), minif.gfortran_run(r["new_src"])
+    if s0 != "ok":
+        return False, f"gfortran on the original: {s0}"
+    if s1 != "ok":
+        return True, f"accepted; the transformed program fails ({s1}): {o1[-200:]}"
+    g0, g1 = minif.parse_output(o0), minif.parse_output(o1)
+    diff = [(k, a, b) for k, (a, b) in enumerate(zip(g0, g1)) if a != b]
+    if diff:
+        return True, f"accepted; outputs differ at {len(diff)} positions, first: {diff[:4]}"
+    return False, "accepted; outputs equal"
+
+
 def prepare_replay(payload):
     if payload["kind"] in UNMODELLED:
         return prepare_unmodelled(payload)
@@ -684,6 +865,8 @@ def judge_replay(c, gf):
 
 def replay_case(payload):
     """re-run one stored input against the real code; returns (failing, text)"""
+    if payload["kind"] == "foldret":
+        return replay_fold(payload)
     c = prepare_replay(payload)
     return judge_replay(c, gfortran_outputs(c) if (c.skip is None and c.accepted) else (None, None))
 
@@ -700,8 +883,9 @@ def run(chk):
         "numerically different bound texts)",
         "symbols created by a transformation are fresh (checked per case: ids are taken from the real result)",
         "programs stay inside MiniF: integer scalars, rank<=2 arrays, no CodeBlocks inside loops, 32-bit range",
-        "ReplaceInductionVariablesTrans (execution oracle on its finding only) and "
-        "FoldConditionalReturnExpressionsTrans (MiniF has no RETURN) are outside the model"]
+        "FoldConditionalReturnExpressionsTrans: routines whose RETURNs are not inside loops (own statement type RStmt)",
+        "calls occur only in the ReplaceInductionVariablesTrans family (module c05_mod); a READWRITE call argument is "
+        "modelled as read + write"]
     chk.cov["trusted_base"] = ["Lean 4.33.0 kernel", "axioms propext/Classical.choice/Quot.sound only (audited)",
                                "MiniF semantics (validated against gfortran on every differing case and a sample)",
                                "harness/minif.py exporter, harness/props/c05.py correspondence and classifiers"]
@@ -722,11 +906,14 @@ def run(chk):
         for f in sorted(os.listdir(cdir)):
             if f.endswith(".json"):
                 pl = json.load(open(os.path.join(cdir, f)))
+                if pl["kind"] == "foldret":
+                    continue
                 prog = G.P5(["s0", "s1", "t"], ["a", "b", "c"], ["m"] if ":: m" in pl["src"] else [], [], [], {})
                 c = Case(pl["kind"], prog, pl["target"], pl.get("options"),
                          pl.get("literal_negative_step", False), src=pl["src"])
                 corpus.append(c)
     evaluate(chk, corpus + make_cases(chk, n), stats, gf_budget)
+    evaluate_fold(chk, 400 if thorough else 50, stats)
     if chk.broken and not chk.violations:
         # something no longer checks: search intensively for an input on which the property itself fails
         gf_budget[0] += 300
